@@ -201,6 +201,50 @@ theorem non_empty_proper_subsets_spec {α : Type} (l : List α) (hl : l ≠ []) 
         · exact absurd (hs.eq_of_length h) hnl
         · omega
 
+/-! ## iivsearch: brute-force block structures -/
+
+/-- `td_exhaustive_block_structure` drops nothing but the current block structure: every set
+    partition of the etas whose block relation differs from the current one is a candidate … -/
+theorem block_structures_all_but_current (etas : List Nat) (hl : etas.Nodup) (current : List (List Nat))
+    (hc : IsPartition etas current) (R : Nat → Nat → Prop) (hR : Equivalence R)
+    (hdiff : ∃ a, a ∈ etas ∧ ∃ b, b ∈ etas ∧ ¬ (R a b ↔ Rel current a b)) :
+    ∃ P, P ∈ blockStructureCandidates etas current ∧ ∀ a, a ∈ etas → ∀ b, b ∈ etas → (Rel P a b ↔ R a b) := by
+  obtain ⟨P, hP, hrel⟩ := partitions_complete etas hl R hR
+  refine ⟨P, ?_, hrel⟩
+  simp only [blockStructureCandidates, List.mem_filter, hP, true_and, Bool.not_eq_true', isRvBlockStructure]
+  cases hall : current.all (P.contains ·) with
+  | false => rfl
+  | true =>
+    exfalso
+    rw [List.all_eq_true] at hall
+    have hsub : ∀ c, c ∈ current → c ∈ P := fun c hc' => List.contains_iff_mem.mp (hall c hc')
+    have hPpart := partitions_are_partitions etas P hP
+    have hPnd : P.flatten.Nodup := hPpart.2.nodup_iff.mpr hl
+    obtain ⟨a, ha, b, hb, hne⟩ := hdiff
+    apply hne
+    rw [← hrel a ha b hb]
+    constructor
+    · rintro ⟨q, hq, haq, hbq⟩
+      -- the block of `current` containing `a` is a block of `P`, hence it is `q`
+      obtain ⟨c, hc', hac⟩ := List.mem_flatten.mp (hc.2.mem_iff.mpr ha)
+      have := block_unique P hPnd c q (hsub c hc') hq a hac haq
+      subst this
+      exact ⟨c, hc', hac, hbq⟩
+    · rintro ⟨c, hc', hac, hbc⟩
+      exact ⟨c, hsub c hc', hac, hbc⟩
+
+/-- … the candidates are distinct set partitions, and the current structure is not among them. -/
+theorem block_structures_distinct_without_current (etas : List Nat) (hl : etas.Nodup) (current : List (List Nat)) :
+    (blockStructureCandidates etas current).Pairwise (Differ etas) ∧
+      (∀ P, P ∈ blockStructureCandidates etas current → IsPartition etas P) ∧
+      current ∉ blockStructureCandidates etas current := by
+  refine ⟨(partitions_distinct etas hl).sublist List.filter_sublist, ?_, ?_⟩
+  · intro P hP
+    exact partitions_are_partitions etas P (List.mem_filter.mp hP).1
+  · intro h
+    have := (List.mem_filter.mp h).2
+    simp [isRvBlockStructure] at this
+
 /-! ## helpers.all_combinations / itertools.product -/
 
 /-- `itertools.product(*gs)`: exactly the tuples taking one element of every list … -/
